@@ -63,9 +63,10 @@ RULE = (
     "between operations, full comparison at the end; of the length-3 sequences every third one), plus seeded random histories of depth 15 (every tenth: 40), half of them sparse; every history starts from a randomly shaped (sizes 1-4), randomly "
     "populated vector (1-4 fields, sometimes 9-16; 0-5 rows per cell, unset cells; float, int or mixed-dtype cells) and operation parameters (indices, values, field "
     "names) are drawn from the case seed. non-trivial = two populated cells with different row counts existed and the history "
-    "contains a schema change or a block (slice/list) access; distinct = (number of fixed dimensions, observation mode, operation-kind sequence)" % len(ALPHABET)
+    "contains a schema change or a block (slice/list) access; plus six size-threshold histories (x5 thorough): 105 000 / 100 003 / 102 500 cells, a 1 000 003-row cell, 70 and 130 fields; distinct = (number of fixed dimensions, observation mode, operation-kind sequence)" % len(ALPHABET)
 )
 ASSUMPTIONS = [
+    "index forms: Python ints and NumPy ints of every width (int8..uint64, intp) that can hold the position, negative ints where __getitem__/single-cell __setitem__ take them, slices (incl. negative start / step), lists, ranges (reads only), integer arrays of every integer dtype as contiguous / read-only / strided / reversed views; boolean masks, tuples-as-lists, np-int shapes and list shapes are rejected with TypeError on the unchanged tree and are not generated",
     "index expressions use int / slice / at most one list-or-array per expression (several lists have no agreed meaning: numpy pairs them, Vector crosses them); no empty selections (a Vector cannot have a zero-length axis); Ellipsis and more indices than axes are not generated",
     "the workload never stores one array object in two places (block copies between vectors go through view.copy()), so any storage shared between live vectors is the library's doing; views returned by slicing are compared immediately and dropped",
     "get_data on a one-cell block may return the bare cell or a one-element list (both accepted); one-cell list indices and one-cell set_data blocks are not generated for assignment",
@@ -78,7 +79,11 @@ ASSUMPTIONS = [
     "a quarter of the histories use vectors whose cells have different dtypes (int64 -- also from Python-int nested lists -- and float64 side by side, in any row-major order); flattened views are compared by value with the numpy-promoted concatenation; in those vectors field arithmetic keeps integers far below 2**53 so that the float64 view of an integer column is exact and the write-back law is meaningful",
     "15% of the histories start from a wide vector (9-16 fields); remove_fields lists name the fields in any order and often leave only 1-4 survivors",
     "outputs of the API are fed back as inputs: a field is written from the field view of another / the same field of the same vector, of a copy, of another live vector with the same number of rows, or from a flattened field (expected: the values of that field at call time, cast into each cell's dtype); the list get_data returns for a block is assigned back to that block (expected: no change)",
-    "comparisons are exact (model and library perform the same IEEE operations on the same operands): tolerance 0, NaN equals NaN",
+    "comparisons are exact (model and library perform the same IEEE operations on the same operands): tolerance 0, NaN equals NaN; x**3.0 and other exponents that go through pow() are not generated because their last bit depends on the SIMD path NumPy picks for the memory layout (measured: 1 ulp between a C-ordered and a strided cell)",
+    "cell arrays are handed over C-contiguous, Fortran-ordered, row-strided, column-strided with an offset, transposed or with a negative stride (own base each, always writable: cells are stored by reference and in-place arithmetic on a read-only cell raises on the unchanged tree, so read-only arrays are only used for copied arguments: set_flattened values and index arrays); expected = the result for a contiguous copy",
+    "size thresholds (kind 'big'): > 1e5 cells in 1, 2 and 3 dimensions, a cell with > 1e6 rows, 70 and 130 fields, short histories from an affordable op list, same oracles; float cells are occasionally scaled by 1e-8 / 1e8 / 1e150; a quarter of the vectors mix int64 / int32 / float64 / float32 cells",
+    "process-global state: every eighth random history runs under np.errstate(all='raise') and unusual print options with a workload that raises no floating-point flag (expected = default-state behaviour); torch state and quantem.config are not touched by Vector and are not varied",
+    "neutral calls between the steps of half of the densely observed random histories: repr, str, copy() (dropped), property reads, iteration, np.asarray(v[f]), flatten(), copy.copy / copy.deepcopy, occasionally save(); Vector has no __len__ (TypeError on the unchanged tree, not generated); after each such call every live vector is compared with its model (neutral_call_changed_state)",
 ]
 BUDGET = {"quick": {"soft_s": 150}, "thorough": {"soft_s": 900}}
 MIN_EVALUATIONS = {"quick": 2000, "thorough": 50000}
@@ -93,7 +98,7 @@ BIG = [
     {"name": "cells_2d", "ndim": 2, "shape": [350, 300], "nf": 2, "fill": 0.01},
     {"name": "cells_1d", "ndim": 1, "shape": [100003], "nf": 3, "fill": 0.02},
     {"name": "cells_3d", "ndim": 3, "shape": [50, 41, 50], "nf": 2, "fill": 0.01},
-    {"name": "long_cell", "ndim": 1, "shape": [3], "nf": 2, "fill": 1.0, "long_rows": 1200007},
+    {"name": "long_cell", "ndim": 1, "shape": [3], "nf": 1, "fill": 1.0, "long_rows": 1000003},
     {"name": "fields_70", "ndim": 2, "shape": [3, 2], "nf": 70, "fill": 0.8},
     {"name": "fields_130", "ndim": 1, "shape": [4], "nf": 130, "fill": 0.8},
 ]
@@ -562,7 +567,7 @@ class Sess:
 
     # ---- returned values that must be new arrays ---------------------------------------------------
     def hold(self, arr, what, monitor=False):
-        if isinstance(arr, np.ndarray):
+        if isinstance(arr, np.ndarray) and arr.size <= 200000:  # (the size-threshold cases do not keep snapshots of 1e6-row results)
             lst = self.held_mon if monitor else self.held
             lst.append([arr, arr.copy(), what, self.op])
             if not monitor and len(lst) > 6:
@@ -1566,7 +1571,9 @@ def _op_flatten_modify_restore(S):
     S.hold(saved, "v[f].flatten()")
     if variant == "caller_edit":
         # the caller scribbles over the array it was handed; the vector must not notice
-        mine = S.held.pop()[0]
+        if S.held and S.held[-1][0] is saved:
+            S.held.pop()
+        mine = saved
         if mine.flags.writeable and mine.size:
             mine[...] = 0
             S.ctx.count("caller_edits")
